@@ -171,6 +171,9 @@ def applyOp (udp : Bool) (limit epLimit : Nat) (sim : Sim) (f : List String) : O
     let obs := (prog.splitOn "+").filterMap (fun st => if st.startsWith "o" then (st.drop 1).toString.toNat? else none)
     some ({ sim with s := { s with inbox := s.inbox ++ [⟨m, .req (compileProg udp limit epLimit prog)⟩] },
                      obsExch := obs ++ sim.obsExch }, [])
+  | ["burst", ids] =>
+    let ms := (ids.splitOn "-").filterMap (·.toNat?)
+    some ({ sim with s := { s with inbox := s.inbox ++ ms.map (fun m => ⟨m, .req []⟩) } }, [])
   | ["call", prog] => some ({ sim with s := addOutside s (compileProg udp limit epLimit prog) }, [])
   | ["resp", k] => do
     let k ← k.toNat?
@@ -200,7 +203,7 @@ def model (line : String) : String :=
       let f := op.splitOn ":"
       let n0 := sim.s.log.length
       -- the harness lets one millisecond of virtual time pass before every arrival / outside call
-      let sim := if f.head? == some "arrive" || f.head? == some "call" then sleepFor sim 1 else sim
+      let sim := if f.head? == some "arrive" || f.head? == some "call" || f.head? == some "burst" then sleepFor sim 1 else sim
       match applyOp udp limit epLimit sim f with
       | some (sim1, pre) =>
         let sim2 := match f with
@@ -224,7 +227,7 @@ def classify (line : String) : String :=
     let sim0 : Sim := { s := init (q.toNat?.getD 0) udp [] }
     let sim := ops.foldl (fun (sim : Sim) op =>
       let f := op.splitOn ":"
-      let sim := if f.head? == some "arrive" || f.head? == some "call" then sleepFor sim 1 else sim
+      let sim := if f.head? == some "arrive" || f.head? == some "call" || f.head? == some "burst" then sleepFor sim 1 else sim
       match applyOp udp limit epLimit sim f with
       | some (sim1, _) => (match f with
           | ["sleep", ms] => sleepFor sim1 (ms.toNat?.getD 0)
@@ -250,6 +253,9 @@ def history (udp : Bool) (ops : List String) (segs : List String) : Option (List
     | ["arrive", m, prog] =>
       let m ← m.toNat?
       hist := hist ++ [.arrive m (prog != "r")]
+    | ["burst", ids] =>
+      for m in (ids.splitOn "-").filterMap (·.toNat?) do
+        hist := hist ++ [.arrive m false]
     | ["resp", k] => if !early then hist := hist ++ [.answered (← k.toNat?)]
     | ["ack", k] => if !early then ackd := k :: ackd
     -- a separate response before the ACK does not complete the call (it still waits for the ACK): no claim
